@@ -4,7 +4,7 @@
 (* randomised Evaluate for -simulate.                                       *)
 EXTENDS SpecRegistry, Json
 
-Emit == phase = "eval" => PrintT(<<"CASE", ToJson([impls |-> impls])>>)
+Emit == phase = "eval" => PrintT(<<"CASE", ToJson([impls |-> impls, levels |-> levels])>>)
 
 Pick(S) == {RandomElement(S)}
 
@@ -12,13 +12,13 @@ EvaluateSim ==
     /\ phase = "eval"
     /\ phase' = "done"
     /\ LET n == Len(impls) IN
-       \E seedrun \in Pick(IF AllowSeed THEN {FALSE, FALSE, TRUE} ELSE {FALSE}) :
+       \E seedrun \in Pick(IF AllowSeed /\ levels = 0 THEN {FALSE, FALSE, TRUE} ELSE {FALSE}) :
        IF seedrun
            THEN \E S \in Pick(SUBSET (1..n) \ {{}}), oc \in Pick(SeedOuts(n)), arch \in Pick(BOOLEAN) :
                    ev' = EvalWith(0, oc, [i \in 1..n |-> "val"], S, arch)
            ELSE \E a \in Pick(Ctx), oc \in Pick([1..n -> Outs]), hoc \in Pick(HOuts(n)) :
                    ev' = EvalWith(a, oc, hoc, {}, FALSE)
-    /\ UNCHANGED <<impls, handlers, ignore, pointDeps>>
+    /\ UNCHANGED <<impls, handlers, ignore, levels, pointDeps>>
 
 RegisterSim ==
     /\ Len(impls) < MaxImpl
